@@ -353,8 +353,29 @@ func judge(c *Case) verdict {
 	}
 	v.defJudged = true
 	v.defNontriv = len(ref.Log) > 0 || ref.Exception != ""
+	if _, ok := sameObs(ref, g.Observation, compareCompletion); !ok {
+		// edition latitude: ES2015-2020 check the base of a member destructuring target / for-in-of head
+		// when the Reference is created, ES2021+ in PutValue; both readings are accepted
+		opt2 := opt
+		opt2.EagerTargetBase = true
+		if ref2 := refjs.Run(c.Prog, opt2); ref2.Unsupported == "" && !ref2.Fuel {
+			if _, ok2 := sameObs(ref2, g.Observation, compareCompletion); ok2 {
+				evid.Count("latitude:eager-target-base")
+				ref = ref2
+			}
+		}
+	}
 	if what, ok := sameObs(ref, g.Observation, compareCompletion); !ok {
-		v.f = &evid.Failure{Check: "definitional", Key: "def:" + what, Msg: fmt.Sprintf("goja and the definitional interpreter disagree on the %s (strict=%v placement=%s)\n  goja : %s\n  spec : %s\nsource:\n%s", what, c.Strict, c.Placement, showObs(g.Observation), showObs(ref), src), Case: c, Expected: ref, Observed: g.Observation}
+		key := "def:" + what
+		// attribution to the known finding "arguments evaluated before the ReferenceError of an unresolvable callee"
+		opt3 := opt
+		opt3.ArgsBeforeUnresolvableCallee = true
+		if ref3 := refjs.Run(c.Prog, opt3); ref3.Unsupported == "" && !ref3.Fuel {
+			if _, ok3 := sameObs(ref3, g.Observation, compareCompletion); ok3 {
+				key = "probe:unresolvable-callee-args-first"
+			}
+		}
+		v.f = &evid.Failure{Check: "definitional", Key: key, Msg: fmt.Sprintf("goja and the definitional interpreter disagree on the %s (strict=%v placement=%s)\n  goja : %s\n  spec : %s\nsource:\n%s", what, c.Strict, c.Placement, showObs(g.Observation), showObs(ref), src), Case: c, Expected: ref, Observed: g.Observation}
 		return v
 	}
 	base := dumpTypes(src, c.Strict)
